@@ -6,6 +6,7 @@
 pub mod evid;
 pub mod fgen;
 pub mod known;
+pub mod nodeutil;
 pub mod ops;
 pub mod par;
 pub mod props;
